@@ -155,6 +155,28 @@ def run_modes(cfg, prior_name, seq, poller=None):
             dev.settings[66:68] = bytes([0, 3])
         r.call(inv.get_operation_mode)
         r.call(inv.get_operation_mode)
+    if poller and poller.startswith('seen-off:'):
+        # groups 2..4 were OFF when this object (or another object of the family, own inverter) last looked at them -
+        # by reading each group or all settings - and somebody else (the vendor's app) enabled them since
+        _, who, how = poller.split(':')
+        poller = None
+        off = SCHED_BASE[0] if cfg['v2'] else ECO_V1_BASE[0]
+        rr = r
+        if who == 'other':
+            from ..configs import make_rig as _mk4
+            rr = _mk4(dict(cfg), fill=lambda a: 0, keep_world=True)
+            rr.call(rr.inv.read_device_info)
+        for k in (2, 3, 4):
+            ak, nk = group_addr(cfg, k)
+            rr.dev.rf.setbytes(ak, off)
+        if how == 'groups':
+            for k in (2, 3, 4):
+                rr.call(rr.inv.read_setting, f'eco_mode_{k}')
+        else:
+            rr.call(rr.inv.read_settings_data)
+        for k in (2, 3, 4):
+            ak, nk = group_addr(cfg, k)
+            dev.rf.setbytes(ak, SCHED_BASE[1] if cfg['v2'] else ECO_V1_BASE[1])
     between = None
     if poller and poller.startswith('other-between:'):
         # another inverter object of the family (own inverter, group 1 of ITS inverter holds another kind of schedule) reads
@@ -295,15 +317,17 @@ def job_e2e(j):
             continue
         if poller and poller.startswith('others:') and not (len(seq) == 1 and seq[0][0] in (OM.ECO_CHARGE, OM.ECO_DISCHARGE) and seq[0][1:] in ((55, 50), (100, 100))):
             continue
+        if poller and poller.startswith('seen-off:') and not (seq[0][0] in (OM.ECO_CHARGE, OM.ECO_DISCHARGE) and (len(seq) == 1 and seq[0][1:] in ((55, 50), (100, 100)) or len(seq) == 3)):
+            continue
         if poller and poller.startswith('other-between') and not (len(seq) == 1 and seq[0][0] in (OM.ECO_CHARGE, OM.ECO_DISCHARGE)):
             continue
-        if poller and poller != 'getter-first' and not poller.startswith('other-between') and not poller.startswith('others:') and \
+        if poller and poller != 'getter-first' and not poller.startswith('other-between') and not poller.startswith('others:') and not poller.startswith('seen-off:') and \
                 not poller.startswith('runtime-state:') and not (len(seq) == 1 and seq[0][0] in (OM.ECO_CHARGE, OM.ECO_DISCHARGE) and seq[0][1:] in ((55, 50), (9, 50))):
             continue
         vio, k = run_modes(cfg, prior_name, seq, poller)
         n += k
         for key, cause in vio:
-            kk = f"{key}/{cfg['name']}/prior:{prior_name}" + ('/after-a-getter-call' if poller == 'getter-first' else f"/another-object-reads-between:{poller.split(':', 1)[1]}" if poller and poller.startswith('other-between') else f"/groups-2-4-hold:{poller.split(':', 1)[1]}" if poller and poller.startswith('others:') else f"/inverter-runtime-state:{poller.split(':', 1)[1]}" if poller and poller.startswith('runtime-state:') else f"/while-polling:{poller.split('@')[0]}" if poller else '')
+            kk = f"{key}/{cfg['name']}/prior:{prior_name}" + ('/after-a-getter-call' if poller == 'getter-first' else f"/another-object-reads-between:{poller.split(':', 1)[1]}" if poller and poller.startswith('other-between') else f"/groups-2-4-hold:{poller.split(':', 1)[1]}" if poller and poller.startswith('others:') else f"/groups-2-4-seen-off-before:{poller.split(':', 1)[1]}" if poller and poller.startswith('seen-off:') else f"/inverter-runtime-state:{poller.split(':', 1)[1]}" if poller and poller.startswith('runtime-state:') else f"/while-polling:{poller.split('@')[0]}" if poller else '')
             out.setdefault(kk, []).append(dict(key=kk, clause=key.split('/')[0],
                                                replay=dict(part='e2e', cfg=cfg, prior=prior_name, poller=poller,
                                                            seq=[[getattr(m, 'name', m), p, s] for m, p, s in seq]),
@@ -439,6 +463,10 @@ def run(tier, seed, rep):
                 if cfg['family'] == 'ET':
                     for w in range(0, 8):
                         jobs.append((cfg, prior, f'runtime-state:{w}'))
+            if prior in ('off', 'charge', 'discharge'):
+                for who in ('same', 'other'):
+                    for how in ('groups', 'all-settings'):
+                        jobs.append((cfg, prior, f'seen-off:{who}:{how}'))
             if prior in ('off', 'charge'):
                 for other in (PRIORS_V2 if cfg['v2'] else PRIORS_V1):
                     jobs.append((cfg, prior, f'other-between:{other}'))
